@@ -329,6 +329,7 @@ def handle (line : String) : String :=
   | "list" :: rest => Cli.Wire.handleList rest
   | "extract" :: rest => Cli.Wire.handleExtract rest
   | "tree.expected" :: rest => Cli.Wire.handleTree rest
+  | "tree.composed" :: rest => Cli.Wire.handleTreeComposed rest
   | ["archive.read.stream", h] =>
     match ofHex h with
     | some b => Canon.readS (readArchiveStream b)
